@@ -155,7 +155,7 @@ theorem curr_eq (s : Active) (h : s.base + s.buf.length < top) : s.curr = s.base
 /-- one statement: the machine step is matched by the `pass2` step -/
 theorem step_rel (st st' : State) (s : Stmt) (c : Option Nat) (im : Img)
     (hr : Rel st st.tasks c im) (hwf : s.wf = true)
-    (hal : ∀ x n, c = some x → s = .align n → x < top ∨ x % n = 0)
+    (hal : ∀ x n, c = some x → s = .align n → x < top ∨ size x (.align n) = 0)
     (h : step st s = .ok st') :
     ∃ im', (∀ r, pass2 c im (s :: r) = pass2 (next c s) im' r) ∧ Rel st' st'.tasks (next c s) im' ∧
       (∀ a, (im.get a).isSome = true → im'.get a = im.get a) := by
@@ -253,12 +253,11 @@ theorem step_rel (st st' : State) (s : Stmt) (c : Option Nat) (im : Img)
         · rename_i hoff
           cases h
           have hsz : size (s.base + s.buf.length) (.align n) = 0 := by
-            rw [size_align, if_neg hn0]
             by_cases hlt : s.base + s.buf.length < top
-            · rw [curr_eq s hlt] at hoff; rw [if_pos hoff]
+            · rw [curr_eq s hlt] at hoff; rw [size_align, if_neg hn0, if_pos hoff]
             · rcases hal _ n rfl rfl with h1 | h1
               · exact absurd h1 hlt
-              · rw [if_pos h1]
+              · exact h1
           have hnext : next (some (s.base + s.buf.length)) (.align n) = some (s.base + s.buf.length) := by
             simp only [next, Option.map_some, hsz, Nat.add_zero]
           rw [hnext]
